@@ -272,11 +272,11 @@ def check_euler(prog: Prog, view, m: refsem.Model, fn="explicit_euler", rhs_slot
 # ----------------------------------------------------------------------------
 # C06 generalized Rush-Larsen / C07 hybrid
 # ----------------------------------------------------------------------------
-def rl_reference(prog: Prog, m: refsem.Model, s: str):
+def rl_reference(prog: Prog, m: refsem.Model, s: str, env=None):
     """(f term, g term, domain, g_ast) for state s with g = d f_s / d s, other names held fixed."""
     fa = m.rate(s)
     ga = refsem.diff(fa, s, m, expand=False)
-    ev = Evaluator(prog.ctx, m)
+    ev = Evaluator(prog.ctx, m, env=env)
     f = prog.ctx.real(ev.ev(fa))
     g = prog.ctx.real(ev.ev(ga))
     return f, g, ev.dom, ga
@@ -297,7 +297,28 @@ def rl_concrete(m, s, fa, ga, delta):
     return ref
 
 
-def check_grl(prog: Prog, view, m: refsem.Model, delta, fn="generalized_rush_larsen", only=None, tag=""):
+def eq_with_cut(prog: Prog, label, make, gen_eval, ref_eval, what, cut):
+    """Try the obligation under the compositional cut first (quietly); fall back to the
+    fully expanded form, which is the one that is replayed and reported."""
+    if cut is not None and cut.subs:
+        try:
+            hyps, gen, ref = make(cut)
+            tmp = smt.Stats()
+            v, _, info = smt.check(prog.ctx, hyps, prog.ctx.real(gen) != prog.ctx.real(ref),
+                                   timeout_ms=prog.timeout_ms, stats=tmp, want_model=False)
+            if v == "unsat":
+                prog.obligations += 1
+                prog.discharged += 1
+                prog.stats.merge(tmp)
+                prog.record_sample(label + "|cut", v, info)
+                return v
+        except (RefError, refsem.NotDifferentiable):
+            pass
+    hyps, gen, ref = make(None)
+    return prog.eq(label, hyps, gen, ref, gen_eval=gen_eval, ref_eval=ref_eval, what=what)
+
+
+def check_grl(prog: Prog, view, m: refsem.Model, delta, fn="generalized_rush_larsen", only=None, tag="", cut=None):
     res = sym_function(prog, view, fn, label=f"{view.backend}|{fn}{tag}|exec")
     if res is None:
         return None
@@ -313,25 +334,42 @@ def check_grl(prog: Prog, view, m: refsem.Model, delta, fn="generalized_rush_lar
             prog.fact(label, False, "SlotNotWritten", f"{fn} never writes slot {idx} ({s})")
             continue
         try:
-            f, g, dom, ga = rl_reference(prog, m, s)
+            ga = refsem.diff(m.rate(s), s, m, expand=False)
+            rl_reference(prog, m, s)
         except (refsem.NotDifferentiable, RefError) as e:
             prog.skip(label, f"reference differentiator: {e}")
             continue
         x = c.inp(f"s_{s}")
         ge = (lambda inputs, idx=idx: view.concrete(fn, inputs)[idx])
         re_ = rl_concrete(m, s, m.rate(s), ga, delta)
-        out = slots[idx]
-        euler = x + dt * f
+
+        def parts(ct, s=s, idx=idx):
+            f, g, dom, _ = rl_reference(prog, m, s, env=(ct.env if ct else None))
+            out = ct.apply(slots[idx]) if ct else slots[idx]
+            return f, g, dom, out
+
         if refsem._is_zero(ga):
-            prog.eq(label + "|g==0", dom, out, euler, gen_eval=ge, ref_eval=re_, what=f"{fn}[{s}] with g identically 0 must be Euler")
+            def mk(ct):
+                f, g, dom, out = parts(ct)
+                return dom, out, x + dt * f
+            eq_with_cut(prog, label + "|g==0", mk, ge, re_, f"{fn}[{s}] with g identically 0 must be Euler", cut)
             continue
-        rl = x + f / g * (c.exp(g * dt) - 1)
-        big = z3.Or(g > d, g < -d)
-        prog.eq(label + "|abs(g)>delta", dom + [big], out, rl, gen_eval=ge, ref_eval=re_,
-                what=f"{fn}[{s}] RL formula where |g|>{delta}")
-        prog.eq(label + "|abs(g)<=delta", dom + [z3.Not(big)], out, euler, gen_eval=ge, ref_eval=re_,
-                what=f"{fn}[{s}] Euler fallback where |g|<={delta}")
-        prog.eq(label + "|dt0", dom + [dt == 0], out, x, gen_eval=ge, ref_eval=re_, what=f"{fn}[{s}] at dt=0")
+
+        def mk_big(ct):
+            f, g, dom, out = parts(ct)
+            return dom + [z3.Or(g > d, g < -d)], out, x + f / g * (c.exp(g * dt) - 1)
+
+        def mk_small(ct):
+            f, g, dom, out = parts(ct)
+            return dom + [z3.Not(z3.Or(g > d, g < -d))], out, x + dt * f
+
+        def mk_dt0(ct):
+            f, g, dom, out = parts(ct)
+            return dom + [dt == 0], out, x
+
+        eq_with_cut(prog, label + "|abs(g)>delta", mk_big, ge, re_, f"{fn}[{s}] RL formula where |g|>{delta}", cut)
+        eq_with_cut(prog, label + "|abs(g)<=delta", mk_small, ge, re_, f"{fn}[{s}] Euler fallback where |g|<={delta}", cut)
+        eq_with_cut(prog, label + "|dt0", mk_dt0, ge, re_, f"{fn}[{s}] at dt=0", cut)
     return slots
 
 
@@ -367,3 +405,71 @@ def check_init_defaults(prog: Prog, view, m: refsem.Model):
             ge = (lambda inputs, idx=idx, fn=fn: view.concrete(fn, {})[idx])
             re_ = (lambda inputs, a=val_ast: refsem.numeric(a, {}, None))
             prog.eq(label, ev.dom, slots[idx], ref, gen_eval=ge, ref_eval=re_, what=f"{fn}[{kind}_index({name})={idx}] vs declared default")
+
+
+# ----------------------------------------------------------------------------
+# output lengths (C03/C04)
+# ----------------------------------------------------------------------------
+def check_length(prog: Prog, view, fn, expected, what):
+    label = f"{view.backend}|{fn}|length"
+    try:
+        if view.backend == "c":
+            return
+        out, n, _ = view.sym(prog.ctx, fn)
+    except (ArtefactError, Unsupported):
+        return  # reported by the value checks
+    if n == expected:
+        prog.fact(label, True, "", "")
+        return
+
+    def confirm():
+        r = view.concrete(fn, {})
+        return (len(r) != expected, f"real call returned {len(r)} entries, expected {expected} ({what})")
+
+    prog.structural(label, ArtefactError("WrongLength", f"{fn} returns {n} entries, expected {expected} ({what})"), confirm)
+
+
+# ----------------------------------------------------------------------------
+# missing_values (C03/C13)
+# ----------------------------------------------------------------------------
+def check_missing_values(prog: Prog, view, full: refsem.Model, wanted: dict, rest_missing: dict | None = None,
+                         fn="missing_values"):
+    """missing_values of a sub-model B: slot wanted[name] == meaning of `name` in the FULL model, where
+    B's own missing variables (symbolic m_<k>) stand for the full model's value of k."""
+    res = sym_function(prog, view, fn)
+    if res is None:
+        return
+    slots, n, _ = res
+    c = prog.ctx
+    # bind B's missing inputs to the full model's meaning
+    sub_env = {}
+    for k in (rest_missing or {}):
+        ev0 = Evaluator(c, full)
+        try:
+            sub_env[c.inp(f"m_{k}")] = c.real(ev0.name_term(k, None))
+        except RefError:
+            pass
+    for name, idx in wanted.items():
+        label = f"{view.backend}|{fn}|{name}"
+        if idx not in slots:
+            prog.fact(label, False, "SlotNotWritten", f"{fn} never writes slot {idx} ({name})")
+            continue
+        ev = Evaluator(c, full)
+        try:
+            ref = c.real(ev.name_term(name, None))
+        except RefError as e:
+            prog.skip(label, f"reference: {e}")
+            continue
+        gen = slots[idx]
+        if sub_env:
+            gen = z3.substitute(gen, *sub_env.items())
+
+        def ge(inputs, idx=idx):
+            inp = dict(inputs)
+            env = env_from_inputs(full, inputs)
+            for k in (rest_missing or {}):
+                inp[f"m_{k}"] = float(refsem.numeric(("var", k), env, full))
+            return view.concrete(fn, inp)[idx]
+
+        re_ = (lambda inputs, name=name: refsem.numeric(("var", name), env_from_inputs(full, inputs), full))
+        prog.eq(label, ev.dom, gen, ref, gen_eval=ge, ref_eval=re_, what=f"{fn}[{idx}] vs full-model value of {name}")
